@@ -839,6 +839,9 @@ func noteDeref(in ssa.Instruction, pred map[*ssa.BasicBlock]*ssa.BasicBlock, non
 func condKey(c ssa.Value, pred map[*ssa.BasicBlock]*ssa.BasicBlock) (key string, flip bool) {
 	res := func(v ssa.Value) ssa.Value { return resolveAlong(v, pred) }
 	if b, ok := c.(*ssa.BinOp); ok {
+		if key, flip, ok := lenZeroKey(b.Op, res(b.X), res(b.Y)); ok {
+			return key, flip
+		}
 		x, y := canon(res(b.X)), canon(res(b.Y))
 		switch b.Op {
 		case token.EQL:
@@ -865,6 +868,50 @@ func condKey(c ssa.Value, pred map[*ssa.BasicBlock]*ssa.BasicBlock) (key string,
 		return canon(res(ph)), false
 	}
 	return canon(c), false
+}
+
+// lenZeroKey: every spelling of "len(x) is zero" / "len(x) is not zero" (== 0, != 0, <= 0, > 0, < 1, >= 1 and the
+// mirrored forms) shares the key of len(x) == 0: a length is never negative, so a path that took `len(h) > 0` cannot
+// take `len(h) == 0` later.
+func lenZeroKey(op token.Token, x, y ssa.Value) (string, bool, bool) {
+	isLen := func(v ssa.Value) bool {
+		c, ok := v.(*ssa.Call)
+		if !ok {
+			return false
+		}
+		b, ok := c.Call.Value.(*ssa.Builtin)
+		return ok && b.Name() == "len"
+	}
+	mirror := map[token.Token]token.Token{token.EQL: token.EQL, token.NEQ: token.NEQ, token.LSS: token.GTR, token.GTR: token.LSS, token.LEQ: token.GEQ, token.GEQ: token.LEQ}
+	if !isLen(x) {
+		if !isLen(y) {
+			return "", false, false
+		}
+		x, y = y, x
+		op = mirror[op]
+	}
+	k, ok := constInt(y)
+	if !ok {
+		return "", false, false
+	}
+	var zero bool // the condition says len == 0 (else: len != 0)
+	switch {
+	case k == 0 && (op == token.EQL || op == token.LEQ):
+		zero = true
+	case k == 0 && (op == token.NEQ || op == token.GTR):
+		zero = false
+	case k == 1 && op == token.LSS:
+		zero = true
+	case k == 1 && op == token.GEQ:
+		zero = false
+	default:
+		return "", false, false
+	}
+	a, b := canon(x), canon(ssa.NewConst(constant.MakeInt64(0), y.Type()))
+	if a > b {
+		a, b = b, a
+	}
+	return "(" + a + " == " + b + ")", !zero, true
 }
 
 // fwdPath is one path from an instruction to the end of the function.
